@@ -102,7 +102,7 @@ class Inconclusive(Exception):
 class Subject(object):
     """Uniform handle on the three kinds of client."""
 
-    def __init__(self, kind, store, ha, timeout, reconn, opened):
+    def __init__(self, kind, store, ha, timeout, reconn, opened, nostore=False):
         from ioflo.aio.tcp import clienting
         self.kind = kind
         if kind == "client":
@@ -112,8 +112,11 @@ class Subject(object):
                 self.obj.reopen()
         elif kind == "patron":
             from ioflo.aio.http import clienting as hclienting
-            self.obj = hclienting.Patron(store=store, hostname=ha[0], port=ha[1], timeout=timeout,
-                                         reconnectable=reconn)
+            if nostore:     # the Patron makes its own store: its clock is patron.store
+                self.obj = hclienting.Patron(hostname=ha[0], port=ha[1], timeout=timeout, reconnectable=reconn)
+            else:
+                self.obj = hclienting.Patron(store=store, hostname=ha[0], port=ha[1], timeout=timeout,
+                                             reconnectable=reconn)
             self.client = self.obj.connector
             if opened:
                 self.obj.open()
@@ -528,7 +531,11 @@ def run_loop(case):
         if case.get("start") == "up":
             server.up()
         try:
-            subj = Subject(case["kind"], store, ha, T, case["reconn"], case["open"])
+            nostore = bool(case.get("nostore")) and case["kind"] == "patron"
+            subj = Subject(case["kind"], store, ha, T, case["reconn"], case["open"], nostore=nostore)
+            if nostore:
+                store = subj.obj.store          # time is driven through the client's own store
+                classes.add("patron-makes-its-own-store")
         except Exception as ex:
             return [("exception-%s@%s:%s" % (type(ex).__name__, case["kind"], _site(ex)),
                      "constructing %s raised %r" % (case["kind"], ex))], False, classes
@@ -833,6 +840,7 @@ def loop_cases():
         "start": st.sampled_from(["up", "down"]),
         "steps": st.lists(st.tuples(DT, EV_LOOP).map(list), min_size=0, max_size=16),
         "wild": st.sampled_from([False, False, True]),
+        "nostore": st.sampled_from([False, True]),
     })
 
 
